@@ -23,13 +23,19 @@ def run(ctx):
     vf.build_driver(ctx)
     cdir = ctx.subdir("cfg")
     grid = "thorough" if thorough else "quick"
-    # (a) design: every channel behaviour within the budget, every scenario
-    for budget in ([0, 1] if not thorough else [0, 1]):
-        p = os.path.join(cdir, "MC_Blockwise_%d.cfg" % budget)
+    # (a) design: every channel behaviour within the budget, every scenario. Bounds fitted to measured state counts
+    #     (16 cores): quick grid budget 0/1: 5*10^4 states, seconds; thorough grid budget 0: 10^4 states; quick grid budget 1
+    #     with 12 replay positions: 5*10^4; quick grid budget 2: 4.5*10^7 states, 5-6 min, 8 GB. (The large grid with
+    #     budget 1 exceeds 10^8 states and is not run.)
+    design = [("quick", 0, 3), ("quick", 1, 3)]
+    if thorough:
+        design = [("thorough", 0, 3), ("quick", 1, 12), ("quick", 2, 3)]
+    for dgrid, budget, mr in design:
+        p = os.path.join(cdir, "MC_Blockwise_%s_%d.cfg" % (dgrid, budget))
         with open(p, "w") as f:
-            f.write(cfgtext(grid, budget, 0, 0, "Inv_ExactUp Inv_ExactDown Inv_OnceDown Inv_Completes"))
-        r = vf.run_tlc(ctx, "bw", "MC_Blockwise", os.path.basename(p), files=[p], timeout=6000, cont=False, heap="24g" if thorough else None)
-        vf.tlc_must_finish(r, "MC_Blockwise budget %d" % budget)
+            f.write(cfgtext(dgrid, budget, 0, 0, "Inv_ExactUp Inv_ExactDown Inv_OnceDown Inv_Completes", maxreplay=mr))
+        r = vf.run_tlc(ctx, "bw", "MC_Blockwise", os.path.basename(p), files=[p], timeout=3000, cont=False, heap="16g" if thorough else None)
+        vf.tlc_must_finish(r, "MC_Blockwise %s budget %d" % (dgrid, budget))
         if r.inv:
             raise vf.Machinery("design-level invariant failed (spec bug, not a code verdict): %s" % r.inv)
         ctx.add("states", r.distinct)
